@@ -1,6 +1,6 @@
 """C11 — a saved or aged Colang 2 conversation state continues exactly like the live one.
 
-Three case kinds:
+Four case kinds ("rails" = the real API: LLMRails.generate_async with the state travelling as JSON vs the live State object):
   * "ser"      function-level differential: `decode_from_dict(json(encode_to_dict(obj)))` on generated object graphs
                built from the repo's own dataclasses (with sharing) vs the Lean model `Serialize.encode/decode`;
   * "cleanup"  function-level differential: the real `_clean_up_state` under a fake clock on generated `State`s
@@ -52,6 +52,24 @@ VOLATILE = ("uid", "event_created_at", "source_uid")
 
 def translate():
     return tr.run()
+
+
+def static_tie():
+    """llmrails.generate_async must (still) restore a 2.x state with json_to_state and serialise the output
+    state with state_to_json on every call — that is what makes an unserialisable state a failing call."""
+    import ast
+
+    from ..translate.util import find_def, parse
+
+    tree = parse("nemoguardrails/rails/llm/llmrails.py")
+    fn = find_def(tree, "generate_async", cls="LLMRails")
+    calls = {n.func.id for n in ast.walk(fn) if isinstance(n, ast.Call) and isinstance(n.func, ast.Name)}
+    out = []
+    if "state_to_json" not in calls:
+        out.append("LLMRails.generate_async no longer calls state_to_json")
+    if "json_to_state" not in calls:
+        out.append("LLMRails.generate_async no longer calls json_to_state")
+    return out
 
 
 # ============================================================================= generators: ser
@@ -208,6 +226,16 @@ def g_ser_case(rng, depth):
     if rng.random() < 0.12:
         bad = rng.choice(BAD_KINDS)
         v = plant(rng, v, bad)
+    if rng.random() < 0.15:
+        # a whole `State` as the root: goes through state_to_json / json_to_state (callbacks re-created)
+        fss = []
+        for i in range(rng.randrange(1, 4)):
+            uid = f"(f)u{i}"
+            head = {"D": ["FlowHead", [[{"s": "uid"}, {"s": f"h{i}"}], [{"s": "flow_state_uid"}, {"s": uid}], [{"s": "matching_scores"}, {"l": []}], [{"s": "_position"}, {"i": rng.randrange(4)}]]]}
+            fss.append([{"s": uid}, {"D": ["FlowState", [[{"s": "uid"}, {"s": uid}], [{"s": "flow_id"}, {"s": "f"}], [{"s": "loop_id"}, None], [{"s": "hierarchy_position"}, {"s": "0"}],
+                                                     [{"s": "heads"}, {"d": [[{"s": f"h{i}"}, head]]}], [{"s": "context"}, {"d": [[{"s": "v"}, v if i == 0 else g_value(rng, 2, npool)]]}],
+                                                     [{"s": "_status"}, {"e": ["FlowStatus", rng.choice(["WAITING", "STARTED", "FINISHED"])]}], [{"s": "status_updated"}, {"dt": "2024-01-02T03:04:05.000006"}]]]}])
+        v = {"D": ["State", [[{"s": "flow_states"}, {"d": fss}], [{"s": "flow_configs"}, {"d": []}], [{"s": "context"}, {"d": [[{"s": "g"}, g_value(rng, 2, npool)]]}]]]}
     return {"kind": "ser", "v": v, "pool": pool, "bad": bad}
 
 
@@ -406,6 +434,34 @@ def g_e2e_case(rng, maxlen, want=None):
     return {"kind": "e2e", "src": src, "history": hist, "features": feats}
 
 
+RAILS_TPL = """import core
+
+flow helper $p
+  user said "go"
+  bot say "went {{$p}}"
+
+flow main
+  $v = {lit}
+  $w = [$v, 1]
+  user said "hi"
+  bot say "Hello!"
+  start helper({n}) as $h
+  user said "again"
+  bot say "Again {{len(str($v))}}"
+  user said "bye"
+  bot say "Bye {{str($h.status)}}"
+  match Never()
+"""
+
+
+def g_rails_case(rng, want=None):
+    lit = BAD_LITERALS[want] if want else rng.choice(LITERALS)
+    turns = [rng.choice(["hi", "again", "bye", "go", "other"]) for _ in range(rng.randrange(2, 6))]
+    if rng.random() < 0.7:
+        turns[0] = "hi"
+    return {"kind": "rails", "src": RAILS_TPL.format(lit=lit, n=rng.randrange(1, 4)), "turns": turns, "features": [want] if want else []}
+
+
 def gen_cases(rng, tier):
     n_ser, n_cl, n_e2e, maxlen, depth = (6000, 4000, 400, 8, 4) if tier == "quick" else (60000, 40000, 3000, 25, 5)
     cases = [g_ser_case(rng, rng.randrange(1, depth + 1)) for _ in range(n_ser)]
@@ -425,6 +481,8 @@ def gen_cases(rng, tier):
             want = "cycle"
         ml = maxlen if tier == "quick" else rng.choice([8, 8, 12, 12, 25])
         cases.append(g_e2e_case(rng, ml, want))
+    for i in range(12 if tier == "quick" else 160):
+        cases.append(g_rails_case(rng, "regex" if rng.random() < 0.1 else None))
     return cases
 
 
@@ -501,7 +559,62 @@ def run_impl(case):
         finally:
             signal.setitimer(signal.ITIMER_VIRTUAL, 0)
             signal.signal(signal.SIGVTALRM, old)
+    if k == "rails":
+        return run_rails(case)
     raise ValueError(k)
+
+
+def run_rails(case):
+    """The real API: LLMRails.generate_async with the state handed back and forth as JSON (what a server does)
+    vs the same conversation on the live State object (the JSON is still produced, but not used)."""
+    import asyncio
+
+    from nemoguardrails import LLMRails, RailsConfig
+    from nemoguardrails.rails.llm import llmrails as lr
+
+    def conversation(live):
+        cfg = RailsConfig.from_content(case["src"], 'colang_version: "2.x"\n')
+        rails = LLMRails(config=cfg)
+        stash = {}
+        orig = lr.state_to_json
+
+        def wrapped(st, *a, **kw):
+            stash["obj"] = st
+            if live:
+                try:
+                    return orig(st, *a, **kw)
+                except BaseException:  # noqa
+                    return "{}"
+            return orig(st, *a, **kw)
+
+        lr.state_to_json = wrapped
+        outs = []
+        try:
+            state = {}
+            for t in case["turns"]:
+                _Clock.offset_us += 1000
+                try:
+                    res = asyncio.run(rails.generate_async(messages=[{"role": "user", "content": t}], state=state))
+                except BaseException as e:  # noqa
+                    outs.append("EXC:" + _exc_kind(e) + ":" + str(e)[:120])
+                    break
+                outs.append([m.get("content") for m in res.response])
+                state = stash["obj"] if live else res.state
+        finally:
+            lr.state_to_json = orig
+        return outs
+
+    _Clock.offset_us = 0
+    _FakeRandomBits.counter = 0
+    with contextlib.redirect_stdout(io.StringIO()), contextlib.redirect_stderr(io.StringIO()):
+        try:
+            live = conversation(True)
+        except Exception as e:  # noqa
+            return {"skip": "init:" + type(e).__name__ + ":" + str(e)[:100]}
+        _Clock.offset_us = 0
+        _FakeRandomBits.counter = 0
+        saved = conversation(False)
+    return {"live": live, "saved": saved}
 
 
 def _exc_kind(e):
@@ -532,6 +645,27 @@ def run_ser(case):
     sig0 = pv.sharing_signature(obj)
     obs["n_shared"] = sum(1 for x in sig0 if x >= 0)
     obs["aliased_lists"] = pv.aliased_lists(obj)
+    if isinstance(obj, _M["flows"].State):
+        obs["root_state"] = True
+        try:
+            text = ser.state_to_json(obj)
+        except Exception as e:  # noqa
+            obs["enc_exc"] = _exc_kind(e)
+            obs["enc_msg"] = str(e)[:120]
+            return obs
+        if '"__id"' not in text:
+            obs["enc"] = pv.plain_json_to_model(json.loads(text))
+        try:
+            back = ser.json_to_state(text)
+        except Exception as e:  # noqa
+            obs["dec_exc"] = _exc_kind(e)
+            obs["dec_msg"] = str(e)[:120]
+            return obs
+        obs["callbacks"] = _callbacks_ok(back)
+        obs["dec"] = strip_partials(pv.observe(back))
+        obs["sharing_kept"] = pv.sharing_signature(back) == sig0
+        obs["aliased_lists_after"] = pv.aliased_lists(back)
+        return obs
     try:
         d = ser.encode_to_dict(obj, {})
         text = json.dumps(d)
@@ -967,6 +1101,8 @@ def oracle(case, obs):
             return f"state_to_json raises on a value a state can hold: {obs['enc_exc']} ({obs.get('enc_msg')})"
         if "dec_exc" in obs:
             return f"decode_from_dict raises on the encoder's own output: {obs['dec_exc']} ({obs.get('dec_msg')})"
+        if obs.get("callbacks"):
+            return "json_to_state: callbacks not re-installed on " + obs["callbacks"]
         if pv.canon(obs["dec"]) != pv.canon(strip_partials(obs["seen"])):
             return "restored value differs from the saved one: " + first_diff(pv.canon(strip_partials(obs["seen"])), pv.canon(obs["dec"]))
         if not obs["sharing_kept"]:
@@ -1001,6 +1137,15 @@ def oracle(case, obs):
                 return f"clean-up dropped a live child uid from {f['uid']}: {g['children']} vs {exp}"
         return None
     if "skip" in obs:
+        return None
+    if k == "rails":
+        for i, (a, b) in enumerate(zip(obs["live"], obs["saved"])):
+            if isinstance(b, str) and b.startswith("EXC:"):
+                return f"generate_async raises at turn {i} when the state travels as JSON: {b[4:]}"
+            if a != b:
+                return f"conversation with the state travelling as JSON diverges at turn {i}: live {a} saved {b}"
+        if len(obs["live"]) != len(obs["saved"]):
+            return "conversation with the state travelling as JSON stops early"
         return None
     if obs["problems"]:
         p = _worst(obs["problems"])
@@ -1124,6 +1269,10 @@ def signature(case, obs, msg):
         return None
     if k == "cleanup":
         return None
+    if k == "rails":
+        if "re.Pattern" in msg or "regex" in case.get("features", []):
+            return "state-holds-regex"
+        return None
     probs = obs.get("problems") or []
     if not probs:
         return None
@@ -1156,6 +1305,8 @@ def nontrivial(case, obs):
         return obs.get("n_shared", 0) > 0 or s.count("[") > 6
     if k == "cleanup":
         return "flows" in obs and 0 < len(obs["flows"]) < len(case["flows"])
+    if k == "rails":
+        return "live" in obs and sum(1 for o in obs["live"] if o and not isinstance(o, str)) >= 2
     return "skip" not in obs and obs.get("nonempty", 0) >= 2 and obs.get("max_flows", 0) >= 3
 
 
@@ -1174,6 +1325,8 @@ def tags(case, obs):
             t.append("json-level-compared")
         if "skeleton" in obs:
             t.append("refs-skeleton-compared")
+        if obs.get("root_state"):
+            t.append("root:State")
     elif k == "cleanup":
         if "exc" in obs:
             t.append("exc:" + obs["exc"])
@@ -1181,6 +1334,10 @@ def tags(case, obs):
             t.append("removed:" + str(min(len(case["flows"]) - len(obs["flows"]), 4)))
             if any(abs(-f["updated"] - AGE_US) <= 1 for f in case["flows"]):
                 t.append("boundary-age")
+    elif k == "rails":
+        t.append("rails-turns:" + str(len(case["turns"])))
+        if "skip" in obs:
+            t.append("skip:" + obs["skip"][:40])
     else:
         if "skip" in obs:
             t.append("skip:" + obs["skip"].split(":")[1])
